@@ -259,7 +259,7 @@ theorem accepted_project_injection_sound {R : Registry} (wf : WF R) (S : List DS
   theorem: "in an accepted project EVERY attribute holding `lcc.inject_fixture(...)` of an initialised
   suite has received its fixture's value when the tests run".  Refuted twice on the real code:
   `hidden_attr_refutes_injection` (dunder-like class attribute, D21/C14) and
-  `duplicate_refutes_injection` (two attributes injecting the same fixture: the dict keeps one, D33).
+  `duplicate_refutes_injection` (two attributes injecting the same fixture: the dict keeps one, D35).
 -/
 
 /-- **`_partial` form** of the statement above, under the exact guards: no attribute of the suite is
@@ -337,7 +337,7 @@ theorem hidden_attr_refutes_injection :
     (prepareD (projWith [⟨"__x__", .dunder, .body, some "db"⟩])).isOk = true ∧
     assigned [⟨"__x__", .dunder, .body, some "db"⟩] = [] := by decide
 
-/-- **Refutation of the full-strength injection statement, 2** (finding D33): two attributes of a suite
+/-- **Refutation of the full-strength injection statement, 2** (finding D35): two attributes of a suite
     injecting the same fixture — the dict `fixture name → attribute name` keeps the last one in `dir()`
     order; `a` is never assigned. -/
 theorem duplicate_refutes_injection :
